@@ -49,6 +49,9 @@ Inputs ==
   {[k |-> "single", pgn |-> p, src |-> s, tok |-> <<p, s>>] : p \in {"A", "B", "P1", "P2"}, s \in Srcs}
   \cup {[k |-> "claim", src |-> s, name |-> nm] : s \in Srcs, nm \in {1, 2, 3}}
   \cup {[k |-> "unknown", src |-> s] : s \in Srcs} \cup {[k |-> "bad"]}
+  \* a message of the fast-packet PGN that arrives pre-assembled (Actisense, plain text with already_combined) - also while
+  \* frames of that PGN are in flight: it is returned as it is and leaves every reassembly alone
+  \cup {[k |-> "whole", src |-> s, tok |-> <<"F", s>>] : s \in Srcs}
   \cup (IF cfg.mode = "none" /\ cfg.mfrMode = "none"
         THEN {[k |-> "single", pgn |-> "Q1", src |-> s, tok |-> <<"Q1", s>>] : s \in Srcs} \cup {[k |-> "nomatch", src |-> s] : s \in Srcs}
         ELSE {})
